@@ -399,6 +399,46 @@ def _splice_generator(loop, gnode, mapping, prelude):
     return list(prelude) + new
 
 
+def _unroll_literal_loops(fnode):
+    """`for v in (self.a, self.b): BODY`  ->  BODY with v = self.a, then BODY with v = self.b (in place; True when something changed).
+    A loop over a short literal tuple / list of attribute paths is a way of writing the same statements for each of them; what
+    BODY does through `v` it does to those objects, and the rules (effects, write predicates) should see that.  Only when BODY
+    neither rebinds `v` nor leaves the loop with break / continue, the loop has no else clause, and the elements are plain
+    names or attribute paths (evaluating them has no effect)."""
+    def path(e):
+        return isinstance(e, ast.Name) or (isinstance(e, ast.Attribute) and path(e.value))
+    hit = False
+
+    def block(stmts):
+        nonlocal hit
+        out = []
+        for st in stmts:
+            for fld in ('body', 'orelse', 'finalbody'):
+                seq = getattr(st, fld, None)
+                if isinstance(seq, list) and seq and isinstance(seq[0], ast.stmt) and not isinstance(st, (ast.FunctionDef, ast.AsyncFunctionDef, ast.ClassDef)):
+                    setattr(st, fld, block(seq))
+            if isinstance(st, ast.Try):
+                for h in st.handlers:
+                    h.body = block(h.body)
+            if isinstance(st, ast.For) and isinstance(st.target, ast.Name) and isinstance(st.iter, (ast.Tuple, ast.List)) and \
+                    2 <= len(st.iter.elts) <= 4 and all(path(e) and isinstance(e, ast.Attribute) for e in st.iter.elts) and not st.orelse:
+                v = st.target.id
+                rebinds = any(isinstance(n, ast.Name) and n.id == v and isinstance(n.ctx, (ast.Store, ast.Del)) for b in st.body for n in ast.walk(b))
+                leaves = any(isinstance(n, (ast.Break, ast.Continue)) for b in st.body for n in ast.walk(b))
+                nested_use = any(isinstance(n, (ast.FunctionDef, ast.Lambda)) for b in st.body for n in ast.walk(b))
+                used_after = False
+                if not (rebinds or leaves or nested_use):
+                    for e in st.iter.elts:
+                        for b in st.body:
+                            out.append(_Subst({v: e}).visit(copy.deepcopy(b)))
+                    hit = True
+                    continue
+            out.append(st)
+        return out
+    fnode.body = block(fnode.body)
+    return hit
+
+
 class Inliner(object):
     def __init__(self, index):
         self.index = index
@@ -641,6 +681,8 @@ class Inliner(object):
             return node
         new = copy.deepcopy(node)
         changed = [_filter_loops(new)]
+        if _unroll_literal_loops(new):
+            changed[0] = True
 
         def block(stmts, local_defs, depth):
             local_defs = dict(local_defs)
